@@ -1,2 +1,237 @@
-//! Harnesses for property C33 (see /verif/properties.jsonl).
+//! Harnesses for property C33 (see /verif/properties.jsonl):
+//! advertised stratum / reference id, and which sources may be used for synchronisation.
+use crate::common::*;
 use crate::stubs;
+use ntp_proto::verif::identifiers as ih;
+use ntp_proto::verif::packet::v5::server_reference_id as bh;
+use ntp_proto::verif::source as sh;
+use ntp_proto::*;
+use std::net::{IpAddr, Ipv4Addr, SocketAddr};
+
+/// Everything `accept_synchronization` can look at, drawn up front.
+struct AcceptCase {
+    stratum: u8,
+    local_stratum: u8,
+    source_id: u32,
+    reference_id: u32,
+    reach: u8,
+    n_ips: u8,
+    ip0: [u8; 4],
+    ip1: [u8; 4],
+    has_bloom: bool,
+    /// the ten 12-bit indices of this daemon's server id (sorted, distinct as `ServerId::new` makes them)
+    sid: [u16; 10],
+    /// the filter bytes that hold those indices (all other filter bytes are zero)
+    bloom_bytes: [u8; 10],
+}
+
+fn any_case() -> AcceptCase {
+    let c = AcceptCase {
+        stratum: kani::any(),
+        local_stratum: kani::any(),
+        source_id: kani::any(),
+        reference_id: kani::any(),
+        reach: kani::any(),
+        n_ips: kani::any(),
+        ip0: kani::any(),
+        ip1: kani::any(),
+        has_bloom: kani::any(),
+        sid: kani::any(),
+        bloom_bytes: kani::any(),
+    };
+    kani::assume(c.n_ips <= 2);
+    let mut i = 0;
+    while i < 10 {
+        kani::assume(c.sid[i] < 4096);
+        if i > 0 {
+            kani::assume(c.sid[i - 1] < c.sid[i]);
+        }
+        i += 1;
+    }
+    c
+}
+
+/// local address identifiers, from the property text: an IPv4 address is its own identifier
+fn local_id(ip: [u8; 4]) -> u32 {
+    ((ip[0] as u32) << 24) | ((ip[1] as u32) << 16) | ((ip[2] as u32) << 8) | ip[3] as u32
+}
+
+fn is_local(c: &AcceptCase, id: u32) -> bool {
+    (c.n_ips >= 1 && id == local_id(c.ip0)) || (c.n_ips >= 2 && id == local_id(c.ip1))
+}
+
+fn run_accept(c: &AcceptCase) -> (bool, bool) {
+    // Bloom filter: symbolic content at the bytes holding the server id's indices
+    let mut bytes = [0u8; 512];
+    let mut i = 0;
+    while i < 10 {
+        bytes[(c.sid[i] / 8) as usize] |= c.bloom_bytes[i];
+        i += 1;
+    }
+    // independent "filter contains my id": all ten bits set
+    let mut contains = true;
+    let mut i = 0;
+    while i < 10 {
+        let byte = bytes[(c.sid[i] >> 3) as usize];
+        if (byte >> (c.sid[i] & 7)) & 1 == 0 {
+            contains = false;
+        }
+        i += 1;
+    }
+    let snapshot = NtpSourceSnapshot {
+        source_addr: SocketAddr::new(IpAddr::V4(Ipv4Addr::new(192, 0, 2, 1)), 123),
+        source_id: ih::refid_from_raw(c.source_id),
+        poll_interval: poll(6),
+        reach: sh::reach_from_raw(c.reach),
+        stratum: c.stratum,
+        reference_id: ih::refid_from_raw(c.reference_id),
+        protocol_version: ProtocolVersion::V5,
+        bloom_filter: if c.has_bloom { Some(bh::bloom_from_bytes(bytes)) } else { None },
+    };
+    let ips_all = [
+        IpAddr::V4(Ipv4Addr::new(c.ip0[0], c.ip0[1], c.ip0[2], c.ip0[3])),
+        IpAddr::V4(Ipv4Addr::new(c.ip1[0], c.ip1[1], c.ip1[2], c.ip1[3])),
+    ];
+    let ips = &ips_all[..c.n_ips as usize];
+    let res = snapshot.accept_synchronization(c.local_stratum, ips, bh::server_id_from_raw(c.sid));
+    (res.is_ok(), c.has_bloom && contains)
+}
+
+/// The two ways in which the unchanged tree departs from the property (both reproduce natively):
+///  (a) the source names one of this daemon's addresses as ITS reference (it synchronises to us)
+///      at stratum > 1 — the code never looks at `reference_id`;
+///  (b) the source IS this daemon (source id = a local address) and reports stratum 1 — the code
+///      skips its only identifier comparison when stratum == 1.
+fn defect_refid(c: &AcceptCase) -> bool {
+    c.stratum > 1 && is_local(c, c.reference_id)
+}
+fn defect_self_stratum1(c: &AcceptCase) -> bool {
+    c.stratum == 1 && is_local(c, c.source_id)
+}
+
+fn check_accept(c: &AcceptCase) {
+    let (ok, bloom_contains) = run_accept(c);
+    if ok {
+        assert!(c.stratum < c.local_stratum, "used source has a stratum below the local stratum");
+        assert!(c.reach != 0, "used source is reachable");
+        assert!(!is_local(c, c.source_id), "used source is not this daemon itself");
+        assert!(!(c.stratum > 1 && is_local(c, c.reference_id)), "used source (stratum > 1) does not name this daemon as its reference");
+        assert!(!bloom_contains, "used source's Bloom filter does not contain this daemon's server id");
+    }
+    kani::cover!(ok, "a source is accepted");
+    kani::cover!(ok && c.has_bloom && c.n_ips == 2 && c.stratum > 1, "accepted with filter and two local addresses");
+    kani::cover!(!ok && bloom_contains && c.reach != 0 && c.stratum < c.local_stratum, "rejected because of the Bloom filter");
+    kani::cover!(!ok && is_local(c, c.source_id) && c.reach != 0 && c.stratum < c.local_stratum, "rejected as self");
+}
+
+harness! {
+    #[kani::unwind(12)]
+    fn c33_accept() {
+        let c = any_case();
+        kani::assume(!defect_refid(&c));
+        kani::assume(!defect_self_stratum1(&c));
+        check_accept(&c);
+    }
+}
+
+harness! {
+    #[kani::unwind(12)]
+    fn c33_accept_kf_refid() {
+        let c = any_case();
+        kani::assume(defect_refid(&c));
+        kani::assume(!defect_self_stratum1(&c));
+        check_accept(&c);
+    }
+}
+
+harness! {
+    #[kani::unwind(12)]
+    fn c33_accept_kf_self_stratum1() {
+        let c = any_case();
+        kani::assume(defect_self_stratum1(&c));
+        kani::assume(!defect_refid(&c));
+        check_accept(&c);
+    }
+}
+
+// ------------------------------------------------------------------------------------------
+// c33_adv: what the daemon advertises.
+
+struct Src {
+    external: bool,
+    stratum: u8,
+    source_id: u32,
+    has_bloom: bool,
+    bloom_byte: u8,
+    v5: bool,
+}
+
+fn any_src() -> Src {
+    Src {
+        external: kani::any(),
+        stratum: kani::any(),
+        source_id: kani::any(),
+        has_bloom: kani::any(),
+        bloom_byte: kani::any(),
+        v5: kani::any(),
+    }
+}
+
+const BLOOM_PROBE: usize = 300;
+
+fn to_snapshot(s: &Src) -> sh::SourceSnapshot {
+    let mut bytes = [0u8; 512];
+    bytes[BLOOM_PROBE] = s.bloom_byte;
+    if s.external {
+        sh::SourceSnapshot::External { stratum: s.stratum, source_id: ih::refid_from_raw(s.source_id) }
+    } else {
+        sh::SourceSnapshot::Ntp(NtpSourceSnapshot {
+            source_addr: SocketAddr::new(IpAddr::V4(Ipv4Addr::new(192, 0, 2, 1)), 123),
+            source_id: ih::refid_from_raw(s.source_id),
+            poll_interval: poll(6),
+            reach: sh::reach_from_raw(1),
+            stratum: s.stratum,
+            reference_id: ih::refid_from_raw(0x0102_0304),
+            protocol_version: if s.v5 { ProtocolVersion::V5 } else { ProtocolVersion::V4 },
+            bloom_filter: if s.has_bloom { Some(bh::bloom_from_bytes(bytes)) } else { None },
+        })
+    }
+}
+
+harness! {
+    #[kani::unwind(514)]
+    fn c33_adv() {
+        let n: u8 = kani::any();
+        kani::assume(n <= 2);
+        let local_stratum: u8 = kani::any();
+        let s0 = any_src();
+        let s1 = any_src();
+        let sid: [u16; 10] = [5, 17, 100, 900, 1000, 2000, 2401, 3000, 4000, 4095];
+
+        let all = [to_snapshot(&s0), to_snapshot(&s1)];
+        let snap = NtpSnapshot::from_used_sources(local_stratum, bh::server_id_from_raw(sid), all.into_iter().take(n as usize));
+
+        let none_id: u32 = u32::from_be_bytes(*b"XNON");
+        if n == 0 {
+            assert!(snap.stratum == local_stratum, "no source: the configured local stratum is advertised");
+            assert!(ih::refid_raw(snap.reference_id) == none_id, "no source: no reference id");
+        } else {
+            let want = if s0.stratum == 255 { 255 } else { s0.stratum + 1 };
+            assert!(snap.stratum == want, "advertised stratum = primary source's stratum + 1 (saturating)");
+            assert!(ih::refid_raw(snap.reference_id) == s0.source_id, "advertised reference id = primary source's identifier");
+        }
+        // the advertised filter holds this daemon's id and every used source's filter
+        let fb = snap.bloom_filter.as_bytes();
+        assert!(snap.bloom_filter.contains_id(&bh::server_id_from_raw(sid)), "own server id is in the advertised filter");
+        let mut want_probe = 0u8;
+        if n >= 1 && !s0.external && s0.has_bloom { want_probe |= s0.bloom_byte; }
+        if n >= 2 && !s1.external && s1.has_bloom { want_probe |= s1.bloom_byte; }
+        // bit 2401 is in byte 300 (bit 1)
+        want_probe |= 1 << (2401 % 8);
+        assert!(fb[BLOOM_PROBE] == want_probe, "advertised filter = union of the used sources' filters and the own id");
+
+        kani::cover!(n == 2 && s0.stratum == 255, "saturation");
+        kani::cover!(n == 2 && s0.external && !s1.external && s1.has_bloom, "external primary, NTP secondary with filter");
+        kani::cover!(n == 0, "no sources");
+    }
+}
